@@ -112,7 +112,7 @@ def main():
                 print('  clean output tail:', (o1 or '')[-400:])
         # 3. our check
         cache = os.path.join(ROOT, '.cache', 'selftest.%d' % os.getpid())
-        env = dict(os.environ, VERIF_REPO=wt, VERIF_CACHE=cache)
+        env = dict(os.environ, VERIF_REPO=wt, VERIF_CACHE=cache, VERIF_EVIDENCE_DIR=os.path.join(cache, 'evidence'))
         t0 = time.time()
         p = subprocess.run(['./check', prop, '--tier', tier], cwd=ROOT, env=env, stdout=subprocess.PIPE, stderr=subprocess.STDOUT, text=True, errors='replace')
         keys = re.findall(r'^  key=(\S+)', p.stdout, re.M)
